@@ -54,6 +54,25 @@ def table_rule(ctx, rule, path):
     S = ("param", 0)
     res = fv.term(fv.body.get("expr")) if fv.body.get("expr") else ("none",)
     arrays = [s for s in subterms(res) if s[0] == "array"]
+    if res[0] == "tup" and len(res) == 3 and not arrays and res[2][0] == "local":
+        # the map is a local filled by `for (k, v) in [ .. ] { map.insert(k, v); }`
+        mlocal = res[2]
+        for l in fv.nodes:
+            if l.get("k") != "for":
+                continue
+            it = fv.term(l["iter"])
+            arr = it if it[0] == "array" else next((s_ for s_ in subterms(it) if s_[0] == "array"), None)
+            if arr is None:
+                continue
+            item = ("item", it)
+            ins = [x for x in walk(l["body"]) if x.get("k") == "mcall" and cname(x).endswith("HashMap::insert")
+                   and fv.term(x["recv"]) == mlocal]
+            branchy = [x for x in walk(l["body"]) if x.get("k") in ("if", "match", "continue", "break", "ret")]
+            if len(ins) == 1 and not branchy and [fv.term(a) for a in ins[0]["args"]] == [("proj", 0, item), ("proj", 1, item)]:
+                arrays = [arr]
+        others = [x for x in fv.nodes if x.get("k") == "mcall" and cname(x).endswith("HashMap::insert")]
+        if len(others) != 1:
+            arrays = []
     if res[0] != "tup" or len(res) != 3 or len(arrays) != 1:
         ctx.fail(rule, "%s:shape" % path, "cgr_maps no longer returns (centre, map built from one literal array)", fv.fn["sp"])
         return
